@@ -115,6 +115,9 @@ type Conn struct {
 	// SentButFailed > 0: that many of the next Writes put their bytes on the wire and still report an
 	// error (a write deadline that expires after the kernel took the data, an error surfacing late)
 	SentButFailed int
+	// PartialAt > 0: the PartialAt-th Write from now puts only its first PartialKeep bytes on the wire and
+	// fails with a timeout error (a write deadline expiring while the peer's window is closed)
+	PartialAt, PartialKeep int
 }
 
 // ErrSentButFailed is what a Write configured with SentButFailed returns.
@@ -238,6 +241,14 @@ func (c *Conn) Write(b []byte) (int, error) {
 	if p.rclosed {
 		return 0, io.ErrClosedPipe
 	}
+	partial := false
+	if c.PartialAt > 0 {
+		c.PartialAt--
+		if c.PartialAt == 0 && c.PartialKeep < len(b) {
+			b = b[:c.PartialKeep]
+			partial = true
+		}
+	}
 	cp := append([]byte(nil), b...)
 	if c.msg {
 		p.msgs = append(p.msgs, cp)
@@ -254,6 +265,9 @@ func (c *Conn) Write(b []byte) (int, error) {
 	}
 	if c.WriteHook != nil {
 		c.WriteHook(c, cp)
+	}
+	if partial {
+		return len(b), timeoutErr{}
 	}
 	if c.SentButFailed > 0 {
 		c.SentButFailed--
